@@ -160,7 +160,8 @@ impl Diagnostics {
     pub fn into_updated(mut self, ast: &Ast, files: &[SliceFile], options: &SliceOptions) -> Vec<Diagnostic> {
         // Helper function that checks whether a lint should be allowed according to the provided identifiers.
         fn is_lint_allowed_by<'b>(mut identifiers: impl Iterator<Item = &'b String>, lint: &Lint) -> bool {
-            identifiers.any(|identifier| identifier == "All" || identifier == lint.code())
+            // The command line accepts lint names in any letter case, so the comparison can't be case-sensitive.
+            identifiers.any(|identifier| identifier.eq_ignore_ascii_case("All") || identifier.eq_ignore_ascii_case(lint.code()))
         }
 
         // Helper function that checks whether a lint is allowed by attributes on the provided entity.
